@@ -156,6 +156,8 @@ class P:
             self.eat("Uint"); self.eat("::"); self.eat(kind="id"); self.eat("(")
             v = self.constexpr()
             self.eat(")")
+            if self.at("%"):                      # `% zn.n`: the same residue class
+                self.eat("%"); self.eat("zn"); self.eat("."); self.eat("n")
             return v
         self.err("expected an integer constant")
 
@@ -671,7 +673,7 @@ def suyama_consts(ecm_src):
     _, _, body = fn_source(impl, "new", "Suyama11::new")
     must(r"let n3 = zn\.n / 3;\s*let one_third = match zn\.n % 3_u64 \{\s*1 => zn\.from_int\(zn\.n - n3\),\s*"
          r"2 => zn\.from_int\(n3 \+ Uint::ONE\),\s*_ => return Err\(UnexpectedFactor\(3_u64\)\),\s*\};\s*"
-         r"debug_assert!\(zn\.mul\(zn\.from_int\(3_u64\.into\(\)\), one_third\) == zn\.one\(\)\);", body,
+         r"debug_assert!\(zn\.mul\(zn\.from_int\(Uint::from_digit\(3\) % zn\.n\), one_third\) == zn\.one\(\)\);", body,
          "Suyama11::new one_third")
     m = must(r"(let a = .*?let gy = [^;]*;)\s*let s = Suyama11 \{ zn, a, b, gx, gy \};\s*"
              r"assert!\(s\.is_valid\(&Point\(gx, gy, zn\.one\(\)\)\)\);\s*Ok\(s\)\s*$", body, "Suyama11::new constants")
